@@ -9,7 +9,7 @@ import (
 )
 
 const (
-	kfFrozen    = "KF-C13-styles-frozen"
+	kfFrozen    = "KF-C13-styles-frozen-opened"
 	kfTemplate  = "KF-C13-tblstyle-template"
 	kfTblCustom = "KF-C13-tblstyle-custom"
 	kfAutoTOC2  = "KF-C13-autotoc-style2"
@@ -44,6 +44,7 @@ func parse(f kit.Failure) (kind, id string, flags map[string]bool, ok bool) {
 // package with lists / notes precedes it.
 type at struct {
 	saved               bool
+	opened              bool // the current document object came from Open/OpenFromMemory (its styles part was loaded, not generated)
 	freshLists, freshNt bool
 }
 
@@ -52,6 +53,7 @@ func walk(c Case, f func(op Op, s at) bool) bool {
 	lists, notes := 0, 0
 	if c.Start != nil {
 		s.saved = true
+		s.opened = true
 		lists, notes = c.Start.Lists, c.Start.Footnotes+c.Start.Endnotes
 		s.freshLists, s.freshNt = lists > 0, notes > 0
 	}
@@ -64,6 +66,7 @@ func walk(c Case, f func(op Op, s at) bool) bool {
 			s.saved = true
 		case op.K == "reopen":
 			s.saved = true
+			s.opened = true
 			if len(op.B) > 1 && op.B[1] {
 				if lists > 0 {
 					s.freshLists = true
@@ -99,8 +102,9 @@ var findings = []kit.Finding[Case]{
 	{
 		ID:     kfFrozen,
 		Clause: "C13.X",
-		Desc:   "the styles part is generated only while the document has none: a style created or changed through the style API after the first save (or on an opened document) is not written, and paragraphs given that style refer to an undefined id",
-		// input class: a style-API op placed after the first save/open of the document object; the failing id is one such an op touched
+		Desc:   "the styles part of an OPENED document is kept verbatim: a style created or changed through the style API on a document obtained from Open/OpenFromMemory is not written, and paragraphs given that style refer to an undefined id",
+		// input class: a style-API op placed after an open of the document object; the failing id is one such an op touched
+		// (the same defect on documents that were only saved before was fixed in /repo cd7a151)
 		Trigger: func(c Case, f kit.Failure) bool {
 			kind, _, flags, ok := parse(f)
 			if !ok || !flags["late-style"] {
@@ -115,7 +119,7 @@ var findings = []kit.Finding[Case]{
 			default:
 				return false
 			}
-			return walk(c, func(op Op, s at) bool { return s.saved && isStyleOp(op.K) && op.K != "st.remove" })
+			return walk(c, func(op Op, s at) bool { return s.opened && isStyleOp(op.K) && op.K != "st.remove" })
 		},
 	},
 	{
